@@ -37,6 +37,7 @@ struct LThread {
     bool last_was_load = false;
     const void* last_load_addr = nullptr;
     unsigned long long last_load_val = 0;
+    unsigned spin_count = 0; // consecutive spin iterations (re-reads of an unchanged atomic / yields) since the last real step
     const char* note = ""; // harness annotation: what the thread is doing (deadlock report / oracle)
     long note_a = 0, note_b = 0;
     ::std::thread os;
@@ -54,6 +55,12 @@ struct Options {
     unsigned livelock_rounds = 64;
     //! additional scheduling point after mutex unlock and after atomic stores / read-modify-writes
     bool post_release_points = true;
+    //! SPIN BURSTS: normally a thread that re-reads an unchanged atomic (or yields) gives way until somebody else made a
+    //! step, so a spin loop never iterates more than a few times. With spin_burst = B a spinning thread first runs B
+    //! iterations back to back (no scheduling point, no choice consumed) and only then starts to give way: code paths
+    //! that a spin loop takes after N rounds ("spin a while, then yield / sleep / re-read") become reachable, with a
+    //! scheduling point exactly where the burst ends. 0 = off (the default; existing schedules are unchanged).
+    unsigned spin_burst = 0;
 };
 
 class Scheduler {
@@ -192,6 +199,7 @@ public:
         LThread& me = cur();
         me.yielded = false;
         me.last_was_load = false;
+        me.spin_count = 0;
         spin_rounds = 0;
         // somebody made a real step: spinning threads may look again
         for (auto& t : threads)
@@ -200,7 +208,12 @@ public:
     }
     void yield_point(const char* op) {
         if (!active) return;
-        cur().yielded = true;
+        LThread& me = cur();
+        if (opt.spin_burst && me.spin_count < opt.spin_burst) { // burst: keep spinning without giving way
+            ++me.spin_count;
+            return;
+        }
+        me.yielded = true;
         reschedule(op);
     }
     void block(St st, const void* on, const char* op) {
